@@ -81,7 +81,9 @@ def run(src, wt, pid, store):
     else:
       print('   no check fires')
     if store and confirmed:
-      dst = os.path.join(VERIF, 'seeded', '%s-%s' % (pid, k))
+      tag = [a.split('=', 1)[1] for a in sys.argv if a.startswith('--tag=')]
+      dst = os.path.join(VERIF, 'seeded', '%s-%s%s' % (
+          pid, tag[0] if tag else '', k))
       os.makedirs(dst, exist_ok=True)
       shutil.copy(diff, os.path.join(dst, 'patch.diff'))
       shutil.copy(demo, os.path.join(dst, 'demo.py'))
